@@ -2,10 +2,12 @@
 from checks import decoder_units as D
 from checks.decoder_common import run_property
 
+SEED = [0]
+
 
 def jobs(tier):
     m = ("strict",)
-    return D.g_dispatch(m) + D.g_structs(m) + D.g_arrays(m) + D.g_frames(m) + D.g_leaf(m, deep=1) + D.g_typed(("INT", "VALID"))
+    return D.g_dispatch(m) + D.g_structs(m) + D.g_arrays(m) + D.g_frames(m) + D.g_leaf(m, deep=1) + D.g_typed(("INT", "VALID")) + D.g_crosscheck(tier, SEED[0])
 
 
 def keep(name, ob):
@@ -13,6 +15,7 @@ def keep(name, ob):
 
 
 def run(tier, seed, only=None):
+    SEED[0] = seed
     from checks.replay_decoder import replayer
     return run_property("C01", tier, seed, jobs(tier), keep,
                         "every walker, instantiated on every concrete layout entry (102 primitives, 98 structs, 468 areas + encrypted variants, 33 size-prefixed types, 20 union/selector pairs, 17 list types, 117 command codes x command/response), emits exactly the one-level unfolding of the reference semantics over the pinned layout and returns T(**results); bytes, values, counts and sizes are symbolic",
